@@ -34,7 +34,8 @@ FieldMism(c, e, r, b) ==
       trlen == TrLen(c)
       l4off == ipoff + NetLen(c) + ExtLen(c) IN
   (IF c.link = "eth" /\ LayerOf(r, "eth").f # DST_MAC \o SRC_MAC \o <<IF c.vlan \in {2, 4} THEN 34984 ELSE IF c.vlan # 0 THEN 33024 ELSE NetEt(c)>> THEN {"eth.fields"} ELSE {})
-  \cup (IF c.link = "sll" /\ (LayerOf(r, "sll").f[1] # 3 \/ LayerOf(r, "sll").f[2] # 1 \/ LayerOf(r, "sll").f[3] # 6 \/ LayerOf(r, "sll").f[12] # NetEt(c)) THEN {"sll.fields"} ELSE {})
+  \cup (IF c.link = "sll" /\ (LayerOf(r, "sll").f[1] # 3 \/ LayerOf(r, "sll").f[2] # 1 \/ LayerOf(r, "sll").f[3] # (IF c.plen \in {1, 9} THEN 20 ELSE 6)
+                             \/ SubSeq(LayerOf(r, "sll").f, 4, 11) # <<1, 2, 3, 4, 5, 6, 7, 8>> \/ LayerOf(r, "sll").f[12] # NetEt(c)) THEN {"sll.fields"} ELSE {})
   \cup (IF c.vlan \in {1, 3} /\ LayerOf(r, "vlan").f # (IF c.vlan = 1 THEN <<0, 0, VID_INNER, NetEt(c)>> ELSE <<5, 1, VID_INNER, NetEt(c)>>) THEN {"vlan.fields"} ELSE {})
   \cup (IF c.vlan = 2 /\ (r.layers[2].f # <<0, 0, VID_OUTER, 33024>> \/ r.layers[3].f # <<0, 0, VID_INNER, NetEt(c)>>) THEN {"vlan.double.fields"} ELSE {})
   \* caller supplied double VLAN header: pcp / dei / id kept, both ether types filled in by the builder
@@ -73,6 +74,8 @@ FieldMism(c, e, r, b) ==
           \cup (IF f[15] # (IF (fl \div 32) % 2 = 1 THEN URGP ELSE 0) THEN {"tcp.urgent_pointer"} ELSE {})
           \cup (IF f[11] # 5 + c.tcp_opts \div 4 THEN {"tcp.data_offset"} ELSE {})
           \cup (IF c.tcp_opts = 12 /\ SubSeq(f, 16, Len(f)) # <<2, 4, 5, 120, 1, 3, 3, 7, 4, 2, 0, 0>> THEN {"tcp.options"} ELSE {})
+          \* SACK (1,2) + two more blocks given in the 2nd and 3rd slot: all three blocks are sent (kind 5, length 26), then the NOP and one END
+          \cup (IF c.tcp_opts = 28 /\ SubSeq(f, 16, Len(f)) # <<5, 26, 0, 0, 0, 1, 0, 0, 0, 2, 0, 0, 0, 3, 0, 0, 0, 4, 0, 0, 0, 5, 0, 0, 0, 6, 1, 0>> THEN {"tcp.options"} ELSE {})
         ELSE {})
   \cup (IF TrKind(c) \in {"icmp4", "icmp6"} THEN
           LET f == LayerOf(r, TrKind(c)).f
